@@ -215,11 +215,22 @@ def newTx (m : Mach) (mu : Mut) : Mach × Tx :=
 
 /-! ### queueing -/
 
-/-- `IsQueued(type, states, withoutArgsOnly=true, strictEqual=true, 0,
-    isCheck=false, PositionAny)`. -/
+/-- `detectQueueDuplicates`, newest queued mutation first: an equal arg-less
+    mutation is a duplicate unless a counter mutation (a `Set`, or the opposite kind
+    touching one of the states) is scheduled after it. -/
+def dupScan (kind : MutKind) (states : S) : List Mut → Bool
+  | [] => false
+  | q :: rest =>
+    if q.isCheck then dupScan kind states rest else
+    let same := q.kind == kind && q.called.length == states.length && every q.called states
+    if same && !q.hasArgs then true
+    else if same then dupScan kind states rest
+    else if q.kind == .set || kind == .set then false
+    else if q.kind != kind && !(noneOf q.called states) then false
+    else dupScan kind states rest
+
 def isDuplicate (m : Mach) (kind : MutKind) (states : S) : Bool :=
-  m.queue.any (fun q => !q.isCheck && q.kind == kind && !q.hasArgs &&
-    q.called.length == states.length && every q.called states)
+  dupScan kind states m.queue.reverse
 
 /-- `queueMutation`: returns the queue tick, or `none` for "duplicate, skipped". -/
 def queueMutation (m : Mach) (r : MutReq) : Mach × Option Nat :=
